@@ -81,7 +81,7 @@ def bean_requests(draw):
 
 @st.composite
 def histories(draw, max_len=12):
-    bodies = draw(st.lists(st.one_of(reqgen.bodies(max_batch=4), reqgen.bodies(max_batch=4), reqgen.damaged_texts(), bean_requests()), min_size=1, max_size=max_len))
+    bodies = draw(st.lists(gen.pick(reqgen.bodies(max_batch=4), reqgen.bodies(max_batch=4), reqgen.damaged_texts(), bean_requests()), min_size=1, max_size=max_len))
     return {"bodies": bodies, "version": draw(st.sampled_from([1.0, 2.0])), "jsonclass": draw(st.booleans()),
             "mode": draw(st.sampled_from(dc.MODES))}
 
@@ -155,7 +155,7 @@ def traced_files():
 @st.composite
 def concurrent_cases(draw):
     nthreads = draw(st.integers(2, 3))
-    simple = st.one_of(reqgen.valid_entries().map(lambda e: ("single", e)),
+    simple = gen.pick(reqgen.valid_entries().map(lambda e: ("single", e)),
                        st.lists(reqgen.valid_entries(), min_size=1, max_size=3).map(lambda l: ("batch", l)),
                        reqgen.bodies(max_batch=3))
     threads = [draw(st.lists(simple, min_size=1, max_size=3)) for _ in range(nthreads)]
@@ -305,7 +305,7 @@ def make_sweep_oracle(prefixes):
 # Config.copy independence
 
 FIELDS = ["version", "use_jsonclass", "content_type", "user_agent", "serialize_method", "ignore_attribute"]
-config_ops = st.one_of(
+config_ops = gen.pick(
     st.tuples(st.just("set"), st.sampled_from(FIELDS), st.sampled_from([1.0, 2.0, True, False, "x", "text/plain", "_s"])),
     st.tuples(st.just("classes-add"), st.sampled_from(["A", "B"])),
     st.tuples(st.just("classes-set"), st.sampled_from(["A", "B", "C"])),
